@@ -219,8 +219,8 @@ func TestVerifFeeMarketRows(t *testing.T) {
 		times := []bc{{1000, 1000_999}, {1000, 1009_000}, {1000, 1010_000}, {1000, 1011_500}, {1000, 1020_000}, {1000, 1025_000},
 			{1000, (1000 + 10<<32) * 1000}, {1000, (1000 + 1<<50) * 1000}, {1000, 990_000}, {1 << 62, 5_000}, {M, 0}, {M - 5, 7_000}}
 		for k, tm := range times {
-			if os.Getenv("VERIF_TIER") == "quick" && k%2 == 1 {
-				continue // quick tier: every other boundary time
+			if os.Getenv("VERIF_TIER") == "quick" && k%3 != 0 {
+				continue // quick tier: every third boundary time
 			}
 			var p, l [fees.FeeDimensions]uint64
 			var win [fees.FeeDimensions][window.WindowSize]uint64
